@@ -17,7 +17,7 @@
 operator. For electronic system, it means to couple all the electrons by pair.
 """
 
-import itertools
+import numpy as np
 
 from tangelo.toolboxes.operators import BosonOperator, QubitOperator
 
@@ -38,22 +38,33 @@ def hard_core_boson_operator(ferm_op):
         BosonOperator: Self-explanatory.
     """
 
-    # Getting the molecular integrals.
-    cte, e_sei, e_tei = ferm_op.get_coeffs(spatial=True)
-    e_tei *= 2
+    # Coefficients of the a^ a and a^ a^ a a terms, indexed by spin-orbitals (alternating up/down ordering).
+    cte, h, g = ferm_op.get_coeffs(spatial=False)
+    if h.shape[0] % 2:
+        # The operator stops at the spin-up orbital of the last spatial orbital.
+        h, g = np.pad(h, (0, 1)), np.pad(g, (0, 1))
+    n_mos = h.shape[0] // 2
 
+    # Projection on the determinants where every spatial orbital is empty or doubly occupied. With the pair operator
+    # b^_p = a^_{p,up} a^_{p,down}, only three kinds of terms survive: number of pairs in an orbital, a pair hopping
+    # from one orbital to another, and two orbitals both holding a pair. Every index order of a term is accounted for,
+    # so that the result depends on the operator and not on the way it is written.
     boson_op = BosonOperator((), cte)
-    n_mos = e_sei.shape[0]
-    for i, j in itertools.product(range(n_mos), repeat=2):
-        if i == j:
-            coeff = 2*e_sei[i, i] + e_tei[i, i, i, i]
-            boson_op += BosonOperator(f"{i}^ {i}", coeff)
-        else:
-            r1_coeff = e_tei[i, i, j, j]
-            boson_op += BosonOperator(f"{i}^ {j}", r1_coeff)
+    for p in range(n_mos):
+        pu, pd = 2*p, 2*p + 1
+        coeff = h[pu, pu] + h[pd, pd] + g[pu, pd, pd, pu] - g[pu, pd, pu, pd] - g[pd, pu, pd, pu] + g[pd, pu, pu, pd]
+        boson_op += BosonOperator(f"{p}^ {p}", coeff)
 
-            r2_coeff = 2*e_tei[i, j, j, i] - e_tei[i, j, i, j]
-            boson_op += BosonOperator(f"{i}^ {i} {j}^ {j}", r2_coeff)
+        for q in range(n_mos):
+            if q == p:
+                continue
+            qu, qd = 2*q, 2*q + 1
+
+            r1_coeff = g[pu, pd, qd, qu] - g[pd, pu, qd, qu] - g[pu, pd, qu, qd] + g[pd, pu, qu, qd]
+            boson_op += BosonOperator(f"{p}^ {q}", r1_coeff)
+
+            r2_coeff = sum(g[i, j, j, i] - g[i, j, i, j] for i in (pu, pd) for j in (qu, qd))
+            boson_op += BosonOperator(f"{p}^ {p} {q}^ {q}", r2_coeff)
 
     return boson_op
 
